@@ -16,9 +16,11 @@ EXTENDS System, Json, IOUtils
 
 Rec == ndJsonDeserialize(IOEnv.TRACE)
 
-VARIABLE l          \* index of the next event
+VARIABLES l,        \* index of the next event
+          obs       \* what the code itself reported for this run: [pres, vres] ("" = not yet)
 
-tvars == << vars, l >>
+tvars == << vars, l, obs >>
+NoObs == [pres |-> "", vres |-> ""]
 
 Has(r, f) == f \in DOMAIN r
 Ev == Rec[l]
@@ -77,7 +79,7 @@ CallOf(r) ==
   THEN [op |-> "con", lc |-> ExprTerms(r.e) \o (IF Has(r, "c") THEN FromConst(r.c) ELSE << >>)]
   ELSE r
 
-TraceInit == Init /\ l = 1
+TraceInit == Init /\ l = 1 /\ obs = NoObs
 
 TraceSetup ==
   /\ IsEvent("setup")
@@ -168,11 +170,11 @@ TraceSkip ==
   /\ UNCHANGED vars
 
 TraceNext ==
-  \/ TraceSetup \/ TraceNew \/ TraceCall
-  \/ TraceProve1 \/ TraceProve2 \/ TraceProve
-  \/ TraceWire \/ TraceDecode
-  \/ TraceVerify1 \/ TraceVerify2 \/ TraceVerify
-  \/ TraceEnd \/ TraceSkip
+  \/ TraceSetup /\ obs' = NoObs
+  \/ (TraceNew \/ TraceCall \/ TraceProve1 \/ TraceVerify1 \/ TraceWire \/ TraceDecode \/ TraceEnd \/ TraceSkip)
+       /\ UNCHANGED obs
+  \/ (TraceProve2 \/ TraceProve) /\ obs' = [obs EXCEPT !.pres = Ev.res]
+  \/ (TraceVerify2 \/ TraceVerify) /\ obs' = [obs EXCEPT !.vres = Ev.res]
 
 TraceSpec == TraceInit /\ [][TraceNext]_tvars
 
@@ -185,6 +187,22 @@ TraceAccepted ==
   IF d - 1 = Len(Rec) THEN TRUE
   ELSE /\ PrintT(<< "TRACE-REJECTED", "first unmatched event", d, Rec[d] >>)
        /\ FALSE
+
+(***************************************************************************)
+(* Ideal-verdict properties over what the code itself reported (obs), with *)
+(* the statement semantics (SameStatement, Satisfied) computed by the      *)
+(* specification from the recorded calls.  They do not depend on how the   *)
+(* code derives or orders challenges, only on its verdicts.                *)
+(***************************************************************************)
+Honest == wire = sent /\ ~degen /\ SameStatement /\ sent # NoProof
+\* C01: same statement, satisfying assignment, unaltered proof (no identity commitment) => accepted
+IdealCompleteness ==
+  (obs.vres # "" /\ Honest /\ Satisfied(cs.P) /\ MandatoryNonIdentity(sent))
+     => obs.vres \in {"ok", "InvalidGeneratorsLength"}
+\* C02: an accepted unaltered proof for the same statement comes from a satisfying assignment
+\* (on a toy curve up to Schwartz-Zippel luck: a flagged run is re-run with fresh randomness by the driver)
+IdealSoundness ==
+  (obs.vres = "ok" /\ Honest) => Satisfied(cs.P)
 
 \* properties of System evaluated in every state of every recorded run
 TraceInv == PendingClosed /\ RoleSync /\ Completeness
